@@ -330,6 +330,11 @@ def predict_campaign(sess, rng, count, kinds=KINDS, max_teams=8, max_players=8):
                     p.id = "feedfacefeedfacefeedfacefeedface"
         for op in ("win", "draw", "rank"):
             sess.predict(op, mh, teams)
+        if rng.random() < 0.2:
+            # the caller reconfigures the live model (public attribute) and predicts again, same player count
+            sess.set_model_attr(mh, "beta", mh.m.beta * rng.choice([0.5, 2.0, 3.0]))
+            for op in ("draw", "rank", "win"):
+                sess.predict(op, mh, teams)
 
 
 # ============================================================================= relational groups
